@@ -8,7 +8,8 @@ interpreter imports `liquid` from that tree; checked) and from its AST:
 * `operators[v]` for every string v the OP rule `[!=<>]{1,2}` can match ("" when absent);
 * the compiled rule patterns of `LiquidTag` for an environment without comment marker and for one whose
   marker is the placeholder `MARK`;
-* the source text of the expression that derives the marker from `env.comment_start_string`.
+* the source text of the expression that derives the marker from `env.comment_start_string`;
+* the arguments `LiquidTag.parse` passes to its line tokenizer (the text must be the expression token's own text).
 Fails closed: anything unexpected raises.
 """
 from __future__ import annotations
@@ -79,6 +80,21 @@ def marker_expr(repo: Path) -> str:
     raise RuntimeError("LiquidTag.__init__: assignment of comment_start_string not found")
 
 
+def tokenize_call_args(repo: Path) -> list:
+    """The arguments of the `self._tokenize(...)` call in LiquidTag.parse, as source text."""
+    tree = ast.parse((repo / "liquid/builtin/tags/liquid_tag.py").read_text())
+    for cls in tree.body:
+        if isinstance(cls, ast.ClassDef) and cls.name == "LiquidTag":
+            for fn in cls.body:
+                if isinstance(fn, ast.FunctionDef) and fn.name == "parse":
+                    calls = [n for n in ast.walk(fn) if isinstance(n, ast.Call) and ast.unparse(n.func) == "self._tokenize"]
+                    if len(calls) != 1:
+                        raise RuntimeError("LiquidTag.parse: expected exactly one self._tokenize(...) call")
+                    c = calls[0]
+                    return [ast.unparse(a) for a in c.args] + [f"{k.arg}={ast.unparse(k.value)}" for k in c.keywords]
+    raise RuntimeError("LiquidTag.parse not found")
+
+
 def emit(repo: Path) -> dict:
     repo = Path(repo)
     t = live(repo)
@@ -93,6 +109,7 @@ def emit(repo: Path) -> dict:
     L.append(f"def liquidRulesDefault : String := {lean_str(t['liquid_default'])}\n")
     L.append(f"def liquidRulesMarker : String := {lean_str(t['liquid_marker'])}\n")
     L.append(f"def liquidMarkerExpr : String := {lean_str(marker_expr(repo))}\n")
+    L.append("def liquidTokenizeArgs : List String := [" + ", ".join(lean_str(a) for a in tokenize_call_args(repo)) + "]\n")
     L.append("end LiquidVerif.Gen.C20")
     return {"C20Tables.lean": "\n".join(L) + "\n"}
 
